@@ -1198,6 +1198,7 @@ def split_redefs(fn):
 def dead_stores(fn):
     """`x = <call>` where x is never read: the value is kept as an expression statement"""
     loads = {n.id for n in ast.walk(fn) if isinstance(n, ast.Name) and isinstance(n.ctx, ast.Load)}
+    loads |= {n.target.id for n in ast.walk(fn) if isinstance(n, ast.AugAssign) and isinstance(n.target, ast.Name)}   # x += 1 reads x
     globs = {x for n in _walk_shallow(fn) if isinstance(n, (ast.Global, ast.Nonlocal)) for x in n.names}
 
     def rec(stmts):
